@@ -2,6 +2,8 @@
 //
 // SPDX-License-Identifier: CECILL-2.1
 
+#include <cmath>
+
 #include "../NumConstants.h"
 #include "../VectorTools.h"
 #include "Simplex.h"
@@ -148,41 +150,59 @@ void Simplex::fireParameterChanged(const ParameterList& parameters)
     vProb_[dim_ - 1] = x;
     break;
   case 2:
+  {
+    // p_{i+1} / p_i = (1 - theta_i) / theta_i. The running product is kept as a mantissa in [0.5, 1[ and a
+    // binary exponent, so that it can neither overflow nor underflow, whatever the ratios are.
+    std::vector<int> vexp(dim_, 1);
+    double m = 0.5; // 1 = 0.5 * 2^1
+    int e = 1;
+    vProb_[0] = m;
     for (unsigned int i = 0; i < dim_ - 1; i++)
     {
       th = getParameterValue("theta" + TextTools::toString(i + 1));
       valpha_[i] = (1 - th) / th;
-    }
-    th = 1;
-    vProb_[0] = 1;
-    x = 1.0;
-    for (unsigned int i = 0; i < dim_ - 1; i++)
-    {
-      th *= valpha_[i];
-      vProb_[i + 1] = th;
-      x += vProb_[i + 1];
-      if (th > 1e100) // rescale: the running product must not overflow
+      int et, de;
+      double mt = std::frexp(th, &et);
+      if (mt == 0)
       {
-        for (unsigned int k = 0; k <= i + 1; k++)
+        // null parameter (allowNull): all previous entries are null
+        for (unsigned int k = 0; k <= i; k++)
         {
-          vProb_[k] /= th;
+          vProb_[k] = 0;
         }
-        x /= th;
-        th = 1;
+        m = 0.5;
+        e = 1;
       }
+      else
+      {
+        m = std::frexp(m * (1 - th) / mt, &de);
+        e += de - et;
+      }
+      vProb_[i + 1] = m;
+      vexp[i + 1] = e;
     }
 
-    if (x > NumConstants::TINY()) // avoid rounding pb
-      for (auto& vp : vProb_)
+    int emax = 0;
+    bool first = true;
+    for (unsigned int k = 0; k < dim_; k++)
+    {
+      if (vProb_[k] > 0 && (first || vexp[k] > emax))
       {
-        vp /= x;
+        emax = vexp[k];
+        first = false;
       }
-    else
-      for (auto& vp : vProb_)
-      {
-        vp = 1.0 / double(dim_);
-      }
-
+    }
+    x = 0;
+    for (unsigned int k = 0; k < dim_; k++)
+    {
+      vProb_[k] = std::ldexp(vProb_[k], vexp[k] - emax);
+      x += vProb_[k];
+    }
+    for (auto& vp : vProb_)
+    {
+      vp /= x;
+    }
+  }
     break;
   case 3:
     size_t o = dim_;
